@@ -11,6 +11,7 @@ from typing import Dict, FrozenSet, List, Optional, Set, Tuple, Union
 
 import utype
 from utype import Field, Options, Rule, Schema, exc, types
+from utype.parser.rule import LogicalType
 from vt.ob import ob
 
 PROP = 'C04'
@@ -78,6 +79,8 @@ TYPES = {
     'int|None': ann(Optional[int]), 'int|str': ann(Union[int, str]), 'int|List[int]': ann(Union[int, List[int]]),
     'Pos^Neg': types.PositiveInt ^ types.NegativeInt, 'Float&~Zero': types.Float & ~Rule.annotate(float, constraints={'const': 0.0}),
     'date|datetime': ann(Union[date, datetime]), 'Inner|int': ann(Union[Inner, int]),
+    'int&Pos': LogicalType.all_of(int, types.PositiveInt), 'int^str': LogicalType.one_of(int, str), '~int': LogicalType.not_of(int),
+    'str&~None': LogicalType.all_of(str, LogicalType.not_of(type(None))), 'ContainsInt': Rule.annotate(list, constraints={'contains': int}),
     'Inner': Inner, 'Outer': Outer, 'Strict': Strict, 'Collecting': Collecting,
 }
 for _n, _t in list(TYPES.items()):
@@ -92,6 +95,7 @@ GROUPS = {
     'generic': ['List[int]', 'Set[int]', 'FrozenSet[int]', 'Tuple[int,str]', 'Tuple[int,...]', 'Dict[str,int]'],
     'nested-generic': ['Dict[int,List[int]]', 'List[List[int]]', 'List[Optional[int]]', 'List[Inner]'],
     'logical': ['int|None', 'int|str', 'int|List[int]', 'Pos^Neg', 'Float&~Zero', 'Inner|int'],
+    'logical-raw': ['int&Pos', 'int^str', '~int', 'str&~None', 'ContainsInt'],
     'dataclass': ['Inner', 'Outer', 'Strict', 'Collecting'],
 }
 
